@@ -19,7 +19,7 @@ def sign(x):
 
 def check_call(sizer, dh, equity, lev, rate, ws, ps):
     n = len(ws)
-    assets = ASSETS[:n]
+    assets = ASSETS[:n] if n <= len(ASSETS) else ['EQ:W%02d' % i for i in range(n)]
     dh.ask = {a: float(fw(p)) for a, p in zip(assets, ps)}
     # whole-number weights are passed as python ints, the others as floats (both are legal weight types)
     weights = {a: (int(fw(w)) if fw(w).denominator == 1 else float(fw(w))) for a, w in zip(assets, ws)}
@@ -106,10 +106,51 @@ def group(item):
                 nz += 1
         if len(viols) > 10:
             break
+    # the leverage of the live sizer is changed (sizer.gross_leverage = x): sizing must follow the leverage it shows
+    if not viols:
+        for l2 in LEVERAGES:
+            if l2 == lev:
+                continue
+            sizer.gross_leverage = float(fw(l2))
+            for ws in itertools.product(WEIGHTS[1:6:2], repeat=len(ps)):
+                f, a, oc = check_call(sizer, dh, half if withdrawn else fw(equity), l2, rate, ws, ps)
+                n += 1
+                amb += a
+                viols += [dict(x, case=dict(x['case'], leverage_at_construction=lev)) for x in f]
+            if viols:
+                break
     return {'viols': viols[:10], 'execs': n, 'evals': n, 'ambiguous': amb, 'nontrivial': nz > 0,
             'outcome': (item, tuple(sorted(outs))), 'counters': {'calls_with_short_target': nz},
             'sample': {'equity': equity, 'leverage': lev, 'fee_rate': rate, 'asks': list(ps),
                        'distinct_targets': len(outs)}}
+
+
+def wide_group(item):
+    """Wide signed weight vectors (8 / 12 / 40 assets): rotations of the weight and price alphabets on one sizer."""
+    from qstrader.portcon.order_sizer.long_short import LongShortLeveragedOrderSizer
+    nassets, equity, lev, rate = item
+    dh = PriceStub()
+    broker = make_broker(equity, rate, dh)
+    sizer = LongShortLeveragedOrderSizer(broker, 'p', dh, gross_leverage=float(fw(lev)))
+    viols, amb, n, nz = [], 0, 0, 0
+    for k in range(len(WEIGHTS)):
+        for j in (0, 1, 3):
+            ws = tuple(WEIGHTS[(i * (j + 1) + k) % len(WEIGHTS)] for i in range(nassets))
+            ps = tuple(ASKS[(i + j + k) % len(ASKS)] for i in range(nassets))
+            f, a, oc = check_call(sizer, dh, equity, lev, rate, ws, ps)
+            n += 1
+            amb += a
+            viols += f
+            nz += 1 if oc and any(x < 0 for x in oc) else 0
+        if viols:
+            break
+    return {'viols': viols[:6], 'execs': n, 'evals': n, 'ambiguous': amb, 'nontrivial': nz > 0, 'outcome': ('wide',) + tuple(item),
+            'counters': {'wide_vector_calls': n}}
+
+
+def wide_items(tier):
+    ns = (8, 12) if tier == 'quick' else (8, 9, 12, 33, 40)
+    return [(n, e, lv, r) for n in ns for e in EQUITIES[2:] for lv in LEVERAGES[:3] for r in RATES[:2]]
 
 
 def refusal(item):
@@ -182,6 +223,7 @@ def run(tier, res, is_known):
                         'so a truncation and never a rounding up) and (|q|+1) p > |B| - 1 (largest to within one currency unit); '
                         'boundary_ambiguous counts the points where that band holds more than one whole number']
     product(group, its, res, is_known, label='sizing grid', sample_every=397)
+    product(wide_group, wide_items(tier), res, is_known, label='wide weight vectors (8-40 assets)', chunk=4)
     product(refusal, refusal_items(), res, is_known, label='refusal grid')
     product(wiring_refusal, [(via, bad) for via in ('qts', 'session') for bad in [0, 0.0, -0.0, -1.0]], res, is_known,
             label='refusals through the system wiring')
@@ -195,7 +237,8 @@ def replay(case):
         return refusal(tuple(case['item']))['viols']
     dh = PriceStub()
     broker = make_broker(case['equity'], case['rate'], dh)
-    sizer = LongShortLeveragedOrderSizer(broker, 'p', dh, gross_leverage=float(fw(case['leverage'])))
+    sizer = LongShortLeveragedOrderSizer(broker, 'p', dh, gross_leverage=float(fw(case.get('leverage_at_construction', case['leverage']))))
+    sizer.gross_leverage = float(fw(case['leverage']))
     f, _, _ = check_call(sizer, dh, case['equity'], case['leverage'], case['rate'], case['weights'], case['asks'])
     return f
 
